@@ -346,7 +346,21 @@ func (a *Analysis) checkLenPath(rep *Report, ct *CodecType, pl *PathLayout) {
 	for _, e := range pl.Path.Events {
 		switch e.Kind {
 		case EvPatch:
-			patches = append(patches, e)
+			// (in-place writes that fill a header field with the message's own value are that field's write, not a
+			// computed length)
+			fieldFill := false
+			for _, f := range pl.Layout.Fields {
+				if f.Patched {
+					for _, x := range f.Ev {
+						if x == e {
+							fieldFill = true
+						}
+					}
+				}
+			}
+			if !fieldFill {
+				patches = append(patches, e)
+			}
 		case EvCalc:
 			if calc == nil {
 				calc = e
